@@ -72,6 +72,7 @@ ALGOS = [
     ('circuit', 'get_gates_truth_table'), ('circuit', 'format_circuit'), ('circuit', 'into_bench'),
     ('circuit', '_traverse_circuit'), ('circuit', 'dfs'), ('circuit', 'bfs'),
     ('validation', 'check_circuit_has_no_cycles'),
+    ('circuit', 'replace_subcircuit'),
 ]
 
 COQ_TY.update({
@@ -81,6 +82,7 @@ COQ_TY.update({
     'stpairs': 'list (label * st)', 'stsdict': 'dict (list st)', 'labelsdict': 'dict (list label)',
     'ddict?': '?', 'strings': 'list string', 'tmode': 'tmode', 'tstate': 'tstate', 'statedict': 'dict tstate',
     'events': 'list event', 'abortfn': 'label -> tstate -> option err',
+    'labelspairs': 'list (label * list label)', 'stspairs': 'list (label * list st)',
 })
 # hook parameter -> (event constructor, takes a gate)
 HOOKS = {'on_enter_hook': ('EvEnter', True), 'on_discover_hook': ('EvDiscover', True), 'on_exit_hook': ('EvExit', True),
@@ -93,7 +95,8 @@ DICT_VALUE.update(LOCAL_DICT)       # `k in d` of T9 then covers the local dicts
 LIST_OF = {'label': 'labels', 'st': 'sts', 'nat': 'nats', 'sts': 'stss'}
 # iterable type -> (binder prefix, [(component, type)])
 PAIR_ITER = {'enumpairs': ('nat', 'label'), 'labelpairs': ('label', 'label'), 'intpairs': ('label', 'int'),
-             'stpairs': ('label', 'st')}
+             'stpairs': ('label', 'st'), 'labelspairs': ('label', 'labels'), 'stspairs': ('label', 'sts')}
+DDICT_ITEMS = {'labelsdict': 'labelspairs', 'stsdict': 'stspairs'}
 
 HEADER = '''(* GENERATED by translator/t10_circuit_algos.py from cirbo/core/circuit/circuit.py.  DO NOT EDIT.
    Proofs/CircuitAlgosGen*.v prove every gen_<name> equal to the hand model.
@@ -140,6 +143,11 @@ Definition gate_operator (g : gate) : res gtype :=
 (* collections.defaultdict(list): d[k].append(v) creates the key on first use *)
 Definition ddict_append {V} (d : dict (list V)) (k : label) (v : V) : dict (list V) :=
   match dget d k with Some l => dset d k (l ++ [v]) | None => dset d k [v] end.
+Definition dict_union {V} (a b : dict V) : dict V :=                             (* a | b *)
+  fold_left (fun d kv => dset d (fst kv) (snd kv)) b a.
+(* uuid.uuid4().hex: the next element of the stream `fresh` (the harness patches uuid4 to a counter) *)
+Definition next_uuid (fresh : list string) : res (string * list string) :=
+  match fresh with f :: fr => Ok (f, fr) | [] => Err OutOfFuel end.
 Definition nl : string := String (Ascii.ascii_of_nat 10) EmptyString.            (* "\n" *)
 (* convert_gate(g, circuit) of converters.py is regenerated by translator T6 (Generated/Converters.v:
    generated_convert_gate); the rules that call uuid.uuid4() (generated_needs_fresh) consume the next element of
@@ -503,6 +511,11 @@ class AlgoTr(FnTr):
             c = (c[0], c[1], f.value)
         return c
 
+    def is_uuid_hex(self, node, env):
+        return (isinstance(node, ast.Attribute) and node.attr == 'hex' and isinstance(node.value, ast.Call)
+                and not node.value.args and not node.value.keywords
+                and self.is_module_attr(node.value.func, 'uuid', 'uuid4', env))
+
     def is_convert_gate(self, call, env):
         f = call.func
         return (isinstance(f, ast.Name) and f.id == 'convert_gate' and f.id not in env and self.impkey == 'circuit'
@@ -515,6 +528,8 @@ class AlgoTr(FnTr):
                 if isinstance(n, ast.Call) and self.is_convert_gate(n, env):
                     out.add('<fresh>')
                     out.add(self.self_py)
+                if self.is_uuid_hex(n, env):
+                    out.add('<fresh>')
                 if isinstance(n, ast.Call) and isinstance(n.func, ast.Name) and n.func.id in env:
                     v = env[n.func.id]
                     if v.kind == 'hook':
@@ -620,9 +635,24 @@ class AlgoTr(FnTr):
                     pre.extend(sub)
                 return Val(f'Nat.eqb (length {self.atom(v)}) 0', 'bool')
             self.tmp = save
+        if self.is_uuid_hex(node, env):
+            if pre is None or '<fresh>' not in env:
+                fail(node, 'uuid4() in a pure context')
+            fc = env['<fresh>'].code
+            t = self.fresh()
+            pre.append((f'({t}, {fc})', f'next_uuid {fc}'))
+            return Val(t, 'label')
+        if isinstance(node, ast.BinOp) and isinstance(node.op, ast.BitOr):
+            l = self.expr(node.left, env, pre)
+            r = self.expr(node.right, env, pre)
+            if l.ty == r.ty and l.ty in LOCAL_DICT:
+                return Val(f'(dict_union {self.atom(l)} {self.atom(r)})', l.ty)      # a new dict
+            fail(node, f'| on {l.ty} and {r.ty}')
         if isinstance(node, ast.BinOp) and isinstance(node.op, ast.Add):
             l = self.expr(node.left, env, pre)
             r = self.expr(node.right, env, pre)
+            if l.ty == r.ty == 'nat':
+                return Val(f'({self.atom(l)} + {self.atom(r)})', 'nat')
             if l.ty == r.ty == 'label':
                 return Val(f'({self.atom(l)} ++ {self.atom(r)})%string', 'label')
             if l.ty == r.ty == 'labels':
@@ -776,6 +806,8 @@ class AlgoTr(FnTr):
             ta, tb = PAIR_ITER[it.ty]
             inner[a] = Var(f'(fst {xc})', ta, 'local')
             inner[b] = Var(f'(snd {xc})', tb, 'local')
+            # the lists of a local defaultdict(list) belong to nobody else: they may be stored into the state
+            inner[b].owned = it.ty in ('labelspairs', 'stspairs') and not it.alias
             return xc, inner
         fail(node, 'loop / comprehension target outside grammar')
 
@@ -897,6 +929,10 @@ class AlgoTr(FnTr):
                     if pre is not None:
                         pre.extend(sub)
                     return Val(f'(set_to_list {self.self_code} {self.atom(v)})', 'labels')
+                if v.ty in DICT_VALUE:
+                    if pre is not None:
+                        pre.extend(sub)
+                    return Val(f'(dkeys {self.atom(v)})', 'labels')          # list(d): the keys, a new list
                 if v.ty == 'bools':
                     return Val(f'(map inj {self.atom(v)})', 'sts')
                 if v.ty == 'sts':
@@ -995,6 +1031,10 @@ class AlgoTr(FnTr):
             save = self.tmp
             sub = []
             d = self.expr(f.value, env, sub if pre is not None else None)
+            if d.ty in DDICT_ITEMS and f.attr == 'items':
+                if pre is not None:
+                    pre.extend(sub)
+                return Val(d.code, DDICT_ITEMS[d.ty], d.alias)
             if d.ty in LOCAL_DICT:
                 if pre is not None:
                     pre.extend(sub)
@@ -1553,6 +1593,20 @@ class AlgoTr(FnTr):
             if name in env and env[name].kind in ('self', 'bself', 'circ', 'fn', 'lam'):
                 fail(s, 'assignment to the state variable / a function')
             code = self.vname(tgt, name)
+            # x = self.<mutator that returns a value>(...)
+            if isinstance(val, ast.Call):
+                c = self.callee_of(val, env)
+                if c is not None and c[1].mutates and c[1].monadic and c[1].ret_ty == 'block' and c[0] == 'method' \
+                        and env[c[2].id].kind == 'self' and name not in env:
+                    callee = c[1]
+                    pre = []
+                    ccode, _ = self.call_code(c, val, env, pre)
+                    self.effects_of_call(callee, env)
+                    label = self._last_args[callee.ret_label_param] if callee.ret_label_param is not None else None
+                    sc = env[self.self_py].code
+                    env2 = dict(env)
+                    env2[name] = Var(code, 'block', 'local', {'blocks.content'}, label)
+                    return '\n'.join(self.emit_pre(pre) + [f'do ({sc}, {code}) <- {ccode};', kr.emit(env2)])
             # {} typed by its annotation
             if isinstance(val, ast.Dict) and not val.keys:
                 ty = self.annotation_type(ann, s) if ann is not None else None
@@ -1610,6 +1664,11 @@ class AlgoTr(FnTr):
                 fail(s, f'value of type {v.ty} stored into a {d.ty}')
             return '\n'.join(self.emit_pre(pre) + [f'let {d.code} := dset {d.code} {k} {vcode} in', kr.emit(env)])
         return super().assign(s, env, kr)
+
+    def is_fresh_list(self, node, env):
+        if isinstance(node, ast.Name) and node.id in env and getattr(env[node.id], 'owned', False):
+            return True
+        return super().is_fresh_list(node, env)
 
     def is_fresh_value(self, node, env):
         """syntactically a new dict / set object"""
@@ -1675,6 +1734,19 @@ class AlgoTr(FnTr):
                 fail(call, 'defaultdict(list) with elements of two types')
             return '\n'.join(self.emit_pre(pre) + [f'let {d.code} := ddict_append {d.code} {k} {self.atom(v)} in',
                                                    kr.emit(env)])
+        # self._gate_to_users[k].extend(<list>)
+        if isinstance(f, ast.Attribute) and f.attr == 'extend' and len(call.args) == 1 and not call.keywords \
+                and self.users_item(f.value, env) is not None:
+            pre = []
+            k = self.typed(f.value.slice, env, pre, 'label')
+            sc = env[self.self_py].code
+            t = self.fresh()
+            pre.append((t, f'dget_res (users {sc}) {k}'))
+            e = self.typed(call.args[0], env, pre, 'labels')
+            self.effect('users.content', env)
+            return '\n'.join(self.emit_pre(pre)
+                             + [self.set_field(env, '_gate_to_users', f'(dset (users {sc}) {k} ({t} ++ {e}))'),
+                                kr.emit(env)])
         # convert_gate(g, self) of converters.py
         if self.is_convert_gate(call, env):
             if len(call.args) != 2 or call.keywords or '<fresh>' not in env:
@@ -1740,7 +1812,8 @@ class AlgoTr(FnTr):
             fwd = [k.value for n in ast.walk(f) if isinstance(n, ast.Call) for k in n.keywords if k.arg is None]
             if any(u not in fwd for u in uses):
                 fail(f, '**kwargs may only be forwarded')
-        fn.uses_fresh = any(isinstance(n, ast.Call) and self.is_convert_gate(n, env) for n in ast.walk(f))
+        fn.uses_fresh = any((isinstance(n, ast.Call) and self.is_convert_gate(n, env)) or self.is_uuid_hex(n, env)
+                            for n in ast.walk(f))
         if fn.uses_fresh:
             if self.is_gen or self.builder or self.outer is not None:
                 fail(f, 'convert_gate in this kind of function')
